@@ -533,6 +533,11 @@ func (v *VC) evCall(x SCall, env *SpecEnv) TV {
 			specPanic("fresh() is only meaningful in a postcondition")
 		}
 		return TV{T: fmt.Sprintf("(> (root %s) %s)", ptrOf(v.sortTV(a), a.T), v.clock(env.old.heap)), Typ: tBool}
+	case "bytestr":
+		// bytestr(b): the string a byte slice was converted from / holds (abstract content)
+		a := v.ev(x.Args[0], env)
+		v.useBytesOf()
+		return TV{T: "(bytes.str " + a.T + ")", Typ: tString}
 	case "ifaceptr":
 		a := v.ev(x.Args[0], env)
 		return TV{T: "(iface-ptr " + a.T + ")", Sort: "Ptr"}
@@ -611,6 +616,37 @@ func (v *VC) evCall(x SCall, env *SpecEnv) TV {
 }
 
 func (v *VC) evMethod(x SMethod, env *SpecEnv) TV {
+	// pkg.F(args): a package-level function with a pure contract
+	if id, ok := x.X.(SIdent); ok {
+		_, isBound := env.bound[id.Name]
+		_, isVar := env.vars[id.Name]
+		_, isAddr := env.addr[id.Name]
+		if !isBound && !isVar && !isAddr && env.fn != nil && env.fn.Pkg != nil {
+			for _, imp := range env.fn.Pkg.Pkg.Imports() {
+				if imp.Name() != id.Name {
+					continue
+				}
+				fo, ok := imp.Scope().Lookup(x.Name).(*types.Func)
+				if !ok {
+					continue
+				}
+				f := v.P.prog.FuncValue(fo)
+				if f == nil {
+					specPanic("function %s.%s is not part of the loaded program", id.Name, x.Name)
+				}
+				ct := v.P.contractFor(f)
+				if ct == nil || !ct.Pure {
+					specPanic("function not declared pure: %s", fnKey(f))
+				}
+				var args []string
+				for _, a := range x.Args {
+					args = append(args, v.ev(a, env).T)
+				}
+				r := v.ufApp("uf_"+sanitize(fnKey(f)), f.Signature, "", args)
+				return TV{T: r[0], Typ: f.Signature.Results().At(0).Type()}
+			}
+		}
+	}
 	recv := v.ev(x.X, env)
 	if recv.Typ == nil {
 		specPanic("method %s on untyped term", x.Name)
